@@ -26,10 +26,21 @@ var c10rt struct {
 	loc    string
 	hasLoc bool
 	calls  int
+	// what reached the transport (C09)
+	auth, xammo  string
+	nAuth, nAmmo int
+	path         string
+}
+
+func c10Seen(h http.Header, u *url.URL) {
+	c10rt.nAuth, c10rt.nAmmo = len(h["Authorization"]), len(h["X-Ammo"])
+	c10rt.auth, c10rt.xammo = h.Get("Authorization"), h.Get("X-Ammo")
+	c10rt.path = u.RequestURI()
 }
 
 func vStub___net_http_Transport__RoundTrip(t *http.Transport, req *http.Request) (*http.Response, error) {
 	c10rt.calls++
+	c10Seen(req.Header, req.URL)
 	h := http.Header{}
 	if c10rt.hasLoc {
 		h["Location"] = []string{c10rt.loc}
@@ -43,9 +54,11 @@ func c10NativeTransport() *http.Transport {
 		cli, srv := net.Pipe()
 		go func() {
 			defer srv.Close()
-			if _, err := http.ReadRequest(bufio.NewReader(srv)); err != nil {
+			rq, err := http.ReadRequest(bufio.NewReader(srv))
+			if err != nil {
 				return
 			}
+			c10Seen(rq.Header, rq.URL)
 			c10rt.calls++
 			loc := ""
 			if c10rt.hasLoc {
@@ -85,5 +98,58 @@ func HarnessC10NoRedirectClient() {
 	vCheck("G2.client.net.zero.when.response.received", ag.last.Err() == nil)
 	vCheck("G2.client.nothing.followed", c10rt.calls == 1)
 	vObserve("proto", int64(ag.last.ProtoCode()))
+	vReach("end")
+}
+
+// ---- C09 through the same real client (redirect: false): the headers that reach the transport are
+// the ammo's - nothing is derived from other parts of the request (credentials written into an
+// absolute ammo URL do not turn into an Authorization header, an Authorization header of the ammo
+// is passed on as it is), the request URI is the ammo's.
+func HarnessC09ClientHeaders() {
+	c10rt.calls, c10rt.status, c10rt.hasLoc = 0, 200, false
+	tr := &http.Transport{}
+	if vNative() {
+		tr = c10NativeTransport()
+	}
+	cl := NewRedirectingClient(tr, false)
+	cfg := GunConfig{Target: "target.example:8080", TargetResolved: "10.0.0.1:8080"}
+	g := &BaseGun{Config: cfg, Client: cl}
+	ag := &hSampleAggr{}
+	_ = g.Bind(ag, core.GunDeps{Ctx: context.Background(), Log: zap.NewNop()})
+	u := &url.URL{Path: "/" + string(rune(vNondetInt("p", 'a', 'z')))}
+	if vNondetBool("absolute") {
+		u.Scheme, u.Host = "http", "ammo.example"
+		if vNondetBool("userinfo") {
+			u.User = url.UserPassword("load", "secret")
+		}
+	}
+	hdr := http.Header{}
+	hasAuth, hasAmmo := vNondetBool("hasAuth"), vNondetBool("hasAmmo")
+	av := "Bearer " + string(rune(vNondetInt("a", 'a', 'z')))
+	xv := "x" + string(rune(vNondetInt("x", 'a', 'z')))
+	if hasAuth {
+		hdr["Authorization"] = []string{av}
+	}
+	if hasAmmo {
+		hdr["X-Ammo"] = []string{xv}
+	}
+	req := &http.Request{Method: "GET", URL: u, Header: hdr, ProtoMajor: 1, ProtoMinor: 1}
+	g.Shoot(&hHTTPAmmo{req: req, sample: netsample.Acquire("t"), id: 1})
+	vCheck("H5.sent.once", c10rt.calls == 1)
+	if c10rt.calls != 1 {
+		return
+	}
+	if hasAuth {
+		vCheck("H5.ammo.authorization.unchanged", c10rt.nAuth == 1 && c10rt.auth == av)
+	} else {
+		vCheck("H5.no.header.the.ammo.does.not.have", c10rt.nAuth == 0)
+	}
+	if hasAmmo {
+		vCheck("H5.ammo.header.unchanged", c10rt.nAmmo == 1 && c10rt.xammo == xv)
+	} else {
+		vCheck("H5.no.header.the.ammo.does.not.have", c10rt.nAmmo == 0)
+	}
+	vCheck("H5.request.uri.unchanged", c10rt.path == u.Path)
+	vObserve("nAuth", int64(c10rt.nAuth))
 	vReach("end")
 }
